@@ -53,7 +53,7 @@ def gen_program(rng, cname, maxlen):
     for _ in range(n):
         v = lambda: rng.randrange(nvars)
         k = rng.choice(['bin', 'bin', 'bin', 'ibin', 'ibin', 'ibin', 'scalr', 'scall', 'div', 'neg', 'pow', 'addc',
-                        'rsubc', 'copy', 'alias', 'iscal', 'idiv', 'iaddc', 'selfop', 'aliasop'])
+                        'rsubc', 'copy', 'alias', 'iscal', 'idiv', 'iaddc', 'selfop', 'aliasop', 'accum'])
         if k == 'bin': y, z = v(), v(); prog.append(('bin', fresh(), y, z, rng.choice(['add', 'sub', 'mul', 'mul'])))
         elif k == 'ibin': prog.append(('ibin', v(), v(), rng.choice(['add', 'sub', 'mul'])))
         elif k == 'selfop': x = v(); prog.append(('ibin', x, x, rng.choice(['add', 'sub', 'mul'])))
@@ -68,6 +68,10 @@ def gen_program(rng, cname, maxlen):
         elif k == 'iscal': prog.append(('iscal', v(), rand_coeff(rng)))
         elif k == 'idiv': prog.append(('idiv', v(), rng.choice([2, -2, 4, 0.5, -1, 2j])))
         elif k == 'iaddc': prog.append(('iaddc', v(), rand_coeff(rng)))
+        elif k == 'accum':
+            ys = tuple(v() for _ in range(rng.randint(0, 3))); z = v() if rng.random() < 0.7 else None
+            x = fresh(); prog.append(('accum', x, ys, z))
+            if rng.random() < 0.5: prog.append(('iaddc', x, rand_coeff(rng)) if rng.random() < 0.5 else ('ibin', x, v(), rng.choice(['add', 'sub', 'mul'])))
     return prog
 
 def run_impl(prog, cname):
@@ -104,6 +108,7 @@ def run_impl(prog, cname):
             elif k == 'iscal': x = V[st[1]]; x *= st[2]; V[st[1]] = x
             elif k == 'idiv': x = V[st[1]]; x /= st[2]; V[st[1]] = x
             elif k == 'iaddc': x = V[st[1]]; x += st[2]; V[st[1]] = x
+            elif k == 'accum': bind(st[1], cls.accumulate([V[y] for y in st[2]], start=V[st[3]]) if st[3] is not None else cls.accumulate([V[y] for y in st[2]]))
         except Exception as e:
             return trace, '%s: %s' % (type(e).__name__, e)
         trace.append([(x, dict(V[x].terms)) for x in order])
@@ -141,6 +146,7 @@ def coq_stmt(cname, st):
     if k == 'iscal': return '(SIScal %s %s)' % (n(st[1]), cC(st[2]))
     if k == 'idiv': return '(SIDiv %s %s)' % (n(st[1]), cC(st[2]))
     if k == 'iaddc': return '(SIAddC %s %s)' % (n(st[1]), cC(st[2]))
+    if k == 'accum': return '(SAccum %s (%s : list nat) %s)' % (n(st[1]), clist([n(y) for y in st[2]]), '(Some %s)' % n(st[3]) if st[3] is not None else 'None')
     raise ValueError(k)
 def coq_trace(cname, tr):
     return clist([clist([cpair(cnat(x), coq_op(cname, d)) for x, d in dump]) for dump in tr])
